@@ -632,3 +632,137 @@ Print Assumptions C02_const_from_agree.
 Theorem C02_debug_asserts_keep_side_effects : forallb assert_row_ok debug_asserts_gen = true.
 Proof. exact div_asserts_no_lost_side_effect. Qed.
 Print Assumptions C02_debug_asserts_keep_side_effects.
+
+(** *** round 5: the RECURSION of div/divide_conquer.rs regenerated (coq/gen/DivBodiesGen.v, tools/translate_c02_r5.py) *)
+From Dashu Require Import Int.DivBodiesGenProofs.
+From DashuGen Require Import DivBodiesGen.
+
+(** div_rem_in_place_small_quotient (threshold test, schoolbook kernel, recursive 2m/m division through div_rem_in_place_same_len
+    on the top slices, multiply-subtract, correction loop) with the recursion tied through fuel = the hand model, every w *)
+Theorem C02_gen_dc_small_quotient : forall w : Z, 0 < w -> forall P : div_prims,
+  contract_3by2 w (p3by2 P) -> contract_mul_sub w (pmul_sub P) ->
+  forall (fuel : nat) (lhs rhs : list Z) (d : Z) (r : list Z * bool),
+  DivLargeProofs.kernel_pre w lhs rhs -> (length lhs - length rhs <= length rhs)%nat -> d = highest_dword w rhs ->
+  dc_small_quotient w (p3by2 P) (pmul_sub P) div_threshold_simple_nat fuel lhs rhs = Ok r ->
+  dc_small_quotient_gen P w fuel lhs rhs d = r.
+Proof. exact dc_small_quotient_gen_eq. Qed.
+Print Assumptions C02_gen_dc_small_quotient.
+
+Theorem C02_gen_dc_same_len : forall w : Z, 0 < w -> forall P : div_prims,
+  contract_3by2 w (p3by2 P) -> contract_mul_sub w (pmul_sub P) ->
+  forall (fuel : nat) (lhs rhs : list Z) (d : Z) (r : list Z * bool),
+  DivLargeProofs.kernel_pre w lhs rhs -> length lhs = (2 * length rhs)%nat -> d = highest_dword w rhs ->
+  dc_same_len w (p3by2 P) (pmul_sub P) div_threshold_simple_nat fuel lhs rhs = Ok r -> dc_same_len_gen P w fuel lhs rhs d = r.
+Proof. exact dc_same_len_gen_eq. Qed.
+Print Assumptions C02_gen_dc_same_len.
+
+(** divide_conquer::div_rem_in_place: the blocked loop `while m >= 2 * n` (fuelled Fixpoint of the loop translator over
+    sub-slices written back) and the final small-quotient step = dc_blocks / dc_div_rem of the hand model *)
+Theorem C02_gen_dc_div_rem : forall w : Z, 0 < w -> forall P : div_prims,
+  contract_3by2 w (p3by2 P) -> contract_mul_sub w (pmul_sub P) ->
+  forall (rfuel : nat) (lhs rhs : list Z) (d : Z) (r : list Z * bool),
+  DivLargeProofs.kernel_pre w lhs rhs -> d = highest_dword w rhs ->
+  dc_div_rem w (p3by2 P) (pmul_sub P) div_threshold_simple_nat rfuel lhs rhs = Ok r -> dc_div_rem_in_place_gen P w rfuel lhs rhs d = r.
+Proof. exact dc_div_rem_in_place_gen_eq. Qed.
+Print Assumptions C02_gen_dc_div_rem.
+
+(** the algorithm switch of div/mod.rs over the GENERATED divide-and-conquer kernel *)
+Theorem C02_gen_div_rem_in_place_full : forall w : Z, 0 < w -> forall P : div_prims,
+  contract_3by2 w (p3by2 P) -> contract_mul_sub w (pmul_sub P) ->
+  forall (lhs rhs : list Z) (d : Z) (r : list Z * bool),
+  DivLargeProofs.kernel_pre w lhs rhs -> d = highest_dword w rhs ->
+  div_rem_in_place w (p3by2 P) (pmul_sub P) div_threshold_simple_nat (fuel_for lhs) lhs rhs = Ok r ->
+  div_rem_in_place_full_gen P w lhs rhs d = r.
+Proof. exact div_rem_in_place_full_gen_eq. Qed.
+Print Assumptions C02_gen_div_rem_in_place_full.
+
+(** no fuel premise left: the kernel made of generated code only (switch, schoolbook, Burnikel-Ziegler recursion, correction
+    loop) leaves remainder and quotient with the carry for every well-formed dividend and normalised divisor, and it is the
+    function the round-4 entry points call (there the recursion was the transcription) *)
+Theorem C02_gen_full_kernel_correct : forall w : Z, 0 < w -> forall P : div_prims,
+  contract_3by2 w (p3by2 P) -> contract_mul_sub w (pmul_sub P) ->
+  forall lhs rhs : list Z, DivLargeProofs.kernel_pre w lhs rhs ->
+  exists (res : list Z) (c : bool),
+    div_rem_in_place_full_gen P w lhs rhs (highest_dword w rhs) = (res, c) /\ DivLargeProofs.kernel_post w lhs rhs res c /\
+    div_rem_in_place_gen P w lhs rhs (highest_dword w rhs) = (res, c).
+Proof. exact div_rem_in_place_full_gen_correct. Qed.
+Print Assumptions C02_gen_full_kernel_correct.
+
+(** div_ops.rs::repr, the helpers behind the Large x Small arms regenerated: the zero test as the guard (DivideBy0), shrink_dword as
+    `rhs <= Word::MAX`, then the generated word / double-word kernels = the transcriptions of Int/DivOwn.v that the typed-dispatch
+    theorems C02_typed_div_rem, C02_typed_div, C02_typed_rem are about *)
+Theorem C02_gen_div_rem_large_dword : forall w : Z, 0 < w -> forall (P : div_prims) (buf : list Z) (rhs : Z),
+  wf w buf -> (1 <= length buf)%nat -> 0 <= rhs < B w * B w ->
+  div_rem_large_dword_chk_gen P w buf rhs = div_rem_large_dword w (p2by1 P) (p3by2 P) (p4by2 P) buf rhs.
+Proof. exact div_rem_large_dword_gen_eq. Qed.
+Print Assumptions C02_gen_div_rem_large_dword.
+
+Theorem C02_gen_div_large_dword : forall w : Z, 0 < w -> forall (P : div_prims) (buf : list Z) (rhs : Z),
+  wf w buf -> (1 <= length buf)%nat -> 0 <= rhs < B w * B w ->
+  div_large_dword_chk_gen P w buf rhs = div_large_dword w (p2by1 P) (p3by2 P) (p4by2 P) buf rhs.
+Proof. exact div_large_dword_gen_eq. Qed.
+Print Assumptions C02_gen_div_large_dword.
+
+Theorem C02_gen_rem_large_dword : forall w : Z, 0 < w -> forall (P : div_prims) (ws : list Z) (rhs : Z),
+  (2 <= length ws)%nat -> 0 <= rhs < B w * B w ->
+  rem_large_dword_chk_gen P w ws rhs = rem_large_dword w (p1by1 P) (p2by1 P) (p2by2 P) (p3by2 P) (p4by2 P) ws rhs.
+Proof. exact rem_large_dword_gen_eq. Qed.
+Print Assumptions C02_gen_rem_large_dword.
+
+(** *** round 5: the word / double-word ConstDivisor paths of div_const.rs regenerated (methods rem_word / rem_dword / rem_large of
+    ConstSingleDivisor and ConstDoubleDivisor, div_rem_small_single / _double, the Single / Double arms of the four impl blocks) *)
+From Dashu Require Import Int.DivConstGenInst Int.DivConstGenProofs.
+
+Theorem C02_gen_const_rem : forall w : Z, 0 < w -> forall (P : div_prims) (T : nat) (which a d : Z), 0 <= a -> 0 <= d < B w * B w ->
+  gc_rem P w which a d = const_rem w (p1by1 P) (p2by1 P) (p2by2 P) (p3by2 P) (p4by2 P) (pmul_sub P) T a d.
+Proof. exact gc_rem_eq. Qed.
+Print Assumptions C02_gen_const_rem.
+
+Theorem C02_gen_const_div_rem : forall w : Z, 0 < w -> forall (P : div_prims) (T : nat) (a d : Z), 0 <= a -> 0 <= d < B w * B w ->
+  gc_div_rem P w a d = const_div_rem w (p2by1 P) (p3by2 P) (p4by2 P) (pmul_sub P) T a d /\
+  gc_div P w a d = rbind (gc_div_rem P w a d) (fun qr => Ok (fst qr)).
+Proof. exact gc_div_rem_eq. Qed.
+Print Assumptions C02_gen_const_div_rem.
+
+Theorem C02_gen_const_unconditional : forall w : Z, 8 <= w -> forall which a d : Z, 0 <= a -> 0 <= d < B w * B w ->
+  gc_rem (Pnm w) w which a d = (if d =? 0 then Panic DivideBy0 else Ok (a mod d)) /\
+  gc_div_rem (Pnm w) w a d = (if d =? 0 then Panic DivideBy0 else Ok (a / d, a mod d)) /\
+  gc_div (Pnm w) w a d = (if d =? 0 then Panic DivideBy0 else Ok (a / d)).
+Proof. exact gc_unconditional. Qed.
+Print Assumptions C02_gen_const_unconditional.
+
+(** *** round 5: the operator layer of div_ops.rs regenerated (coq/gen/DivOpsGen.v): which body macro (sign table) or TypedRepr
+    operation each public operator expands to.  The dispatch of the sign-layer models above (C02_ibig_forms, C02_ubig_forms, ...)
+    is this table. *)
+From Dashu Require Import Int.DivOpsGenProofs.
+From DashuGen Require Import DivOpsGen.
+
+Theorem C02_ops_ibig : forall (f : form) (a b : Z), is_op f = true ->
+  exists l, ops_form_gen KII f (sign_of a) (Z.abs a) (sign_of b) (Z.abs b) = Some l /\ ibig_form_asis f a b = mag_guard (Z.abs b) l.
+Proof. exact ops_ibig. Qed.
+Print Assumptions C02_ops_ibig.
+
+Theorem C02_ops_ubig : forall (f : form) (m0 m1 : Z), is_op f = true ->
+  exists l, ops_form_gen KUU f Positive m0 Positive m1 = Some l /\ ubig_form_asis f m0 m1 = mag_guard m1 l.
+Proof. exact ops_ubig. Qed.
+Print Assumptions C02_ops_ubig.
+
+Theorem C02_ops_ubig_ibig : forall (f : form) (m0 b : Z), plain f = true ->
+  exists l, ops_form_gen KUI f Positive m0 (sign_of b) (Z.abs b) = Some l /\ ubig_ibig_form_asis f m0 b = mag_guard (Z.abs b) l.
+Proof. exact ops_ubig_ibig. Qed.
+Print Assumptions C02_ops_ubig_ibig.
+
+Theorem C02_ops_ibig_ubig : forall (f : form) (a m1 : Z), plain f = true ->
+  exists l, ops_form_gen KIU f (sign_of a) (Z.abs a) Positive m1 = Some l /\ ibig_ubig_form_asis f a m1 = mag_guard m1 l.
+Proof. exact ops_ibig_ubig. Qed.
+Print Assumptions C02_ops_ibig_ubig.
+
+Theorem C02_ops_mixed_only_plain : forall (f : form) (s0 : sign) (m0 : Z) (s1 : sign) (m1 : Z), plain f = false ->
+  ops_form_gen KUI f s0 m0 s1 m1 = None /\ ops_form_gen KIU f s0 m0 s1 m1 = None.
+Proof. exact ops_mixed_only_plain. Qed.
+Print Assumptions C02_ops_mixed_only_plain.
+
+Theorem C02_ops_assign_forward :
+  forallb (fun '(t, _, _, m) => String.eqb (assign_target t) m) ops_assign_gen = true /\ (6 <= length ops_assign_gen)%nat.
+Proof. exact ops_assign_forward. Qed.
+Print Assumptions C02_ops_assign_forward.
